@@ -2,7 +2,35 @@
 from gen import gen_latch
 from props._semprop import simple
 
+from common import prove
+
+MODULE = 'Proofs.Props.C05'
+THEOREMS = ['Facto.C05_invert_correct', 'Facto.C05_invert_involutive', 'Facto.sr_latch_step', 'Facto.latch_inlined_set_priority', 'Facto.rs_latch_partial', 'Facto.rs_latch_not_reset_priority', 'Facto.rs_inlined_not_reset_priority', 'Facto.latch_multiplier']
+
 
 def run(res, tier):
+    proved = prove(res, MODULE, THEOREMS)
     simple(res, tier, gen_latch, 64, 900, "seeded generator of latch programs: both argument orders, set/reset as signals or comparisons on shared / different inputs, overlapping and disjoint thresholds, v = 1 / constant; one-input-at-a-time histories",
            extra_case={"steps": 16 if tier == "quick" else 80})
+    if not proved and getattr(res, "gendriver_ok", True):
+        # failing-input search on the translated inversion table: NOT (x op c) must equal x inv(op) c
+        import json as _json, subprocess as _sp
+        from gencheck import GENDRIVER
+        ops = ["<", "<=", ">", ">=", "==", "!="]
+        pyop = {"<": lambda a, b: a < b, "<=": lambda a, b: a <= b, ">": lambda a, b: a > b, ">=": lambda a, b: a >= b,
+                "==": lambda a, b: a == b, "!=": lambda a, b: a != b}
+        out = _sp.run([GENDRIVER], input="\n".join(_json.dumps({"fn": "invert", "op": o, "c": 7}) for o in ops) + "\n",
+                      capture_output=True, text=True).stdout.splitlines()
+        for o, line in zip(ops, out):
+            inv, c = _json.loads(line)["gen"]
+            for x in (6, 7, 8):
+                if inv not in pyop or c != 7 or pyop[inv](x, c) != (not pyop[o](x, 7)):
+                    res.violation({"reason": "the comparison inversion used for the inlined latch hold condition is not the negation",
+                                   "operator": o, "inverted": inv, "x": x, "c": 7,
+                                   "replay": f"a latch with reset={{x {o} 7}} that is on, set inactive, input x={x}: hold row 'x {inv} 7' must be NOT reset",
+                                   "obligation": "Facto.C05_invert_correct"})
+                    proved = True   # a failing input was found; do not add the no-failing-input line
+                    break
+    if not proved:
+        res.violation({"reason": "a proof obligation of C05 no longer checks", "problems": res.proof_problems,
+                       "log": res.proof_log[-1500:], "obligation": MODULE}, failing_input=False)
